@@ -19,8 +19,8 @@ import (
 type Property struct {
 	ID          string
 	Rules       []string
-	Explanation string // what the check decides and what it does not (goes into the evidence file)
-	LevelText   string // MANIFEST level_claimed.text
+	Scope       string // what the check decides
+	NotDecided  string // what it does not decide
 	Technique   string
 	DesignRef   string
 	Assumptions []string
@@ -146,7 +146,7 @@ func main() {
 			rn = append(rn, n)
 		}
 		sort.Strings(rn)
-		p = &Property{ID: "ALL", Rules: rn, Explanation: "all rules (debugging)"}
+		p = &Property{ID: "ALL", Rules: rn, Scope: "all rules (debugging)"}
 	}
 	if p == nil {
 		fmt.Fprintf(os.Stderr, "unknown property %q\n", *prop)
@@ -350,7 +350,7 @@ func writeEvidence(path string, p *Property, tier string, seed int, all []Obliga
 		}
 	}
 	cov := map[string]any{
-		"explanation":         p.Explanation,
+		"explanation":         p.explanation(),
 		"obligations":         len(all),
 		"discharged":          discharged,
 		"evaluations":         len(all),
